@@ -2213,7 +2213,7 @@ GPString gp_to_upper_new(const GPAllocator*, GPStrIn);
 GPString gp_to_upper_full_new(const GPAllocator*, GPStrIn, const char*);
 inline GPString gp_to_upper99(const size_t a_size, const void* a, const void* b, const char* b_id)
 {
-    if (a_size <= sizeof(GPAllocator)) {
+    if (a_size < sizeof(GPAllocator)) {
         gp_str_to_upper_full((GPString*)a, b);
         return (GPString)a;
     } // TODO don't copy and process, just write to output!
@@ -2233,7 +2233,7 @@ GPString gp_to_lower_new(const GPAllocator*, GPStrIn);
 GPString gp_to_lower_full_new(const GPAllocator*, GPStrIn, const char*);
 inline GPString gp_to_lower99(const size_t a_size, const void* a, const void* b, const char* b_id)
 {
-    if (a_size <= sizeof(GPAllocator)) {
+    if (a_size < sizeof(GPAllocator)) {
         gp_str_to_lower_full((GPString*)a, b);
         return (GPString)a;
     } // TODO don't copy and process, just write to output!
@@ -2259,7 +2259,7 @@ GPString gp_capitalize_new(const GPAllocator*, GPStrIn);
 GPString gp_capitalize_locale_new(const GPAllocator*, GPStrIn, const char*);
 inline GPString gp_capitalize99(const size_t a_size, const void* a, const void* b, const char* b_id)
 {
-    if (a_size <= sizeof(GPAllocator)) {
+    if (a_size < sizeof(GPAllocator)) {
         gp_str_capitalize((GPString*)a, b);
         return (GPString)a;
     } // TODO don't copy and process, just write to output!
